@@ -106,4 +106,12 @@ PROPS["C09"] = {
     "level_note": "Trusted: Coq kernel/vm_compute; Model/Classify.v validated on explored cases.",
 }
 
+PROPS["C11"] = {
+    "corr": "Model.Sinks.* vs signalo_sinks::{min,max,bounds,last,integrate,mean,mean_variance,statistics,collect} (Filter::filter after every sample and Finalize::finalize of a clone after every prefix, the empty one included)",
+    "rule": "all 9 sinks over Rat: all histories over {-2,0,1,3} (ties) up to the tier's length plus seeded random rational histories; finalize is taken after every prefix (so 'none exactly when empty' is checked for every sink); non-trivial = at least 3 samples, not constant (Check/C11.v)",
+    "trusted": _RAT, "assumptions": [],
+    "level_text": "Theorems for every sample sequence of every length over the rationals: min/max/bounds are a least/greatest element of everything received, last/sum/collect, Welford mean == sum/n, M2 == sum of squared deviations from the prefix mean, finalised variance == M2/(n-1) for n>=2 and 0 for n=1, statistics agrees with bounds and mean-variance, and each sink yields none exactly for the empty stream; the running-filter clauses are the same invariants read after each step. By invariant + induction with field identities.",
+    "level_note": "Trusted: Coq kernel/vm_compute; Model/Sinks.v validated on explored cases; exact arithmetic (float rounding not modelled).",
+}
+
 NOT_YET = {}
